@@ -23,7 +23,8 @@ def check(run):
     run.build()
     serial = run.drive('TestDriveC16', run.pick(8, 16),
                        lambda i: dict(VERIF_SEED=run.seed * 1000 + i, VERIF_N=run.pick(1, 3), VERIF_PARALLEL=0,
-                                      VERIF_MAXFANS=run.pick(2, 4)), 'c16serial', timeout=3000)
+                                      VERIF_MAXFANS=(2 + i % 2) if run.quick() else 4, **({'VERIF_EXACTFANS': '1'} if run.quick() else {})),
+                       'c16serial', timeout=3000)
     run.sample_from(serial[0], 2)
     run.validate('Monitor_Daemon', dmnfam.monitor_cfg(INV, []), serial, 'mon')
     par = run.drive('TestDriveC16', 8, lambda i: dict(VERIF_SEED=run.seed * 1000 + 100 + i, VERIF_N=run.pick(4, 40), VERIF_PARALLEL=1,
